@@ -83,6 +83,9 @@ type caseState struct {
 	blkErr  bool
 	maxStr  int
 	entered bool
+	// why maxSize may legitimately exceed allowedMaxSize right now:
+	loweredAllowed bool // SetAllowedMaxDynamicTableSize(v) was called with v below the then-current maxSize (finding region)
+	raisedMax      bool // SetMaxDynamicTableSize(v) was called with v above allowedMaxSize (local override; outside C02)
 }
 
 func exec(ops []string, o *vu.Out) {
@@ -137,12 +140,21 @@ func (cs *caseState) step(t []string, o *vu.Out) string {
 		cs.ref.maxStr = cs.maxStr
 		return "ok"
 	case t[0] == "allowed" && len(t) == 2:
+		_, maxBefore, _, _, _, _ := hpack.VerifDecState(w.d)
 		w.d.SetAllowedMaxDynamicTableSize(uint32(vu.Atoi(t[1])))
 		cs.ref.allowed = uint64(vu.Atoi(t[1]))
+		if uint32(vu.Atoi(t[1])) < maxBefore {
+			cs.loweredAllowed = true
+			o.Stat("allowed:lowered-below-maxSize")
+		}
+		cs.invariants(o, "allowed")
 		return "ok"
 	case t[0] == "setmax" && len(t) == 2:
 		w.d.SetMaxDynamicTableSize(uint32(vu.Atoi(t[1])))
 		cs.ref.maxSize = uint64(vu.Atoi(t[1]))
+		if _, _, al, _, _, _ := hpack.VerifDecState(w.d); uint32(vu.Atoi(t[1])) > al {
+			cs.raisedMax = true
+		}
 		cs.ref.evict()
 		cs.invariants(o, "setmax")
 		return "ok " + w.state()
@@ -201,6 +213,25 @@ func (cs *caseState) invariants(o *vu.Out, where string) {
 	}
 	if size > maxSize {
 		o.Fail("", fmt.Sprintf("after %s: dynamic table size %d exceeds maxSize %d", where, size, maxSize))
+	}
+	// C02 "never lets its dynamic table exceed the allowed maximum size": the peer can never get
+	// maxSize above allowedMaxSize; maxSize > allowedMaxSize can only come from the two local calls.
+	_, _, allowed, _, _, _ := hpack.VerifDecState(cs.w.d)
+	if maxSize <= allowed {
+		cs.loweredAllowed, cs.raisedMax = false, false
+	} else if !cs.loweredAllowed && !cs.raisedMax {
+		o.Fail("", fmt.Sprintf("after %s: maxSize %d exceeds allowedMaxSize %d without a local call causing it", where, maxSize, allowed))
+	}
+	if size > allowed {
+		switch {
+		case cs.loweredAllowed:
+			// known finding: lowering the allowed maximum is not enforced against the current table
+			o.Fail("c02-allowed-lowered-not-enforced", fmt.Sprintf("after %s: dynamic table size %d exceeds allowedMaxSize %d (lowered below maxSize %d by SetAllowedMaxDynamicTableSize)", where, size, allowed, maxSize))
+		case cs.raisedMax:
+			o.Stat("size>allowed:local-SetMaxDynamicTableSize")
+		default:
+			o.Fail("", fmt.Sprintf("after %s: dynamic table size %d exceeds allowedMaxSize %d", where, size, allowed))
+		}
 	}
 }
 
